@@ -183,7 +183,7 @@ pub fn unary_sp_lim<T: Px>(thorough: bool, lim_thorough: u32) -> Vec<(String, Sp
 }
 
 pub fn pairs_sp<T: Px>(thorough: bool) -> Vec<(String, Space)> {
-    let lim = if thorough { 11 } else { 8 };
+    let lim = if thorough { 14 } else { 10 };
     if T::N <= lim {
         vec![(String::new(), Space::all2(T::N))]
     } else {
@@ -194,7 +194,7 @@ pub fn pairs_sp<T: Px>(thorough: bool) -> Vec<(String, Space)> {
 }
 
 pub fn triples_sp<T: Px>(thorough: bool) -> Vec<(String, Space)> {
-    let lim = if thorough { 7 } else { 5 };
+    let lim = if thorough { 9 } else { 7 };
     if T::N <= lim {
         vec![(String::new(), Space::all3(T::N))]
     } else {
@@ -396,7 +396,7 @@ pub fn c13_bindings(thorough: bool) -> Vec<CellDef> {
 pub fn c10<T: Px>(thorough: bool) -> Vec<CellDef> {
     let (n, es) = (T::N, T::ES);
     let mut v = vec![];
-    let sp = if n <= 10 { Space::all2(n) } else { let a = alphabet(n, es, thorough); Space::prod2(a.clone(), a, format!("A({},{})^2", n, es)) };
+    let sp = if n <= (if thorough { 13 } else { 11 }) { Space::all2(n) } else { let a = alphabet(n, es, thorough); Space::prod2(a.clone(), a, format!("A({},{})^2", n, es)) };
     v.push(CellDef::new("C10", format!("{}/order", T::name()), sp, move |k| {
         let (a, b) = k2(k);
         let (pa, pb) = (T::fb(a), T::fb(b));
